@@ -23,6 +23,7 @@ theorem ShortRuns.of_prefix {M : Nat} {g a c : Bytes} (h : ShortRuns M g) (e : g
 structure LI (f : Bytes) (M D : Nat) (s : RS) (P w : Bytes) : Prop where
   mt : s.maxTokenSize = M
   db : s.defBuf = D
+  nt : s.trimAll = false        -- the code as it is (token function `trimLine`)
   notDone : s.done = false
   noErr : s.err = none
   pre : ∃ rest, f = P ++ rest
@@ -77,7 +78,7 @@ theorem fill_spec {f M D s P w} (h : LI f M D s P w) :
       unfold fill readAt buf0
       simp only [hs, if_true, hoff, hread]
     rw [hfill]
-    refine ⟨⟨h.mt, h.db, h.notDone, h.noErr, ⟨P.drop (P.length - s.start) ++ rest, ?_⟩, ?_, ?_, hle2, ?_, ?_, ?_, ?_⟩,
+    refine ⟨⟨h.mt, h.db, h.nt, h.notDone, h.noErr, ⟨P.drop (P.length - s.start) ++ rest, ?_⟩, ?_, ?_, hle2, ?_, ?_, ?_, ?_⟩,
       rfl, ?_, rfl, rfl⟩
     · rw [← append_assoc, take_append_drop]; exact hf
     · simp [hroff]
@@ -132,7 +133,7 @@ theorem makeRoom_spec {f M D s P w} (h : LI f M D s P w) (h0 : s.start = 0) (hb 
       simp only [hsh, if_true, h0, Nat.zero_add, drop_zero, Nat.sub_zero, hdata, ← hd]
     have hd0 : (d == 0) = false := by simp; omega
     refine ⟨{ s with buf := s.buf.take d ++ w ++ s.buf.drop (s.stop + d), start := d, stop := s.stop + d }, ?_,
-      ⟨h.mt, h.db, h.notDone, h.noErr, h.pre, h.roff, ?_, ?_, ?_, ?_, hd2, h.bpos⟩, hd1⟩
+      ⟨h.mt, h.db, h.nt, h.notDone, h.noErr, h.pre, h.roff, ?_, ?_, ?_, ?_, hd2, h.bpos⟩, hd1⟩
     · rw [hshift]; unfold grow; simp only [hd0]; rfl
     · simp
     · simpa using hd3
@@ -156,7 +157,7 @@ theorem makeRoom_spec {f M D s P w} (h : LI f M D s P w) (h0 : s.start = 0) (hb 
       have h3 : ¬ s.bufSize ≥ s.maxTokenSize := by omega
       simp only [h0, beq_self_eq_true, if_true, h3, if_false, h2, Bool.false_eq_true, Nat.sub_zero, drop_zero, hdata, ← hn, ← hd]
     refine ⟨{ s with buf := replicate d 0 ++ w ++ replicate (n - (d + s.stop)) 0, start := d, stop := d + s.stop, bufSize := n },
-      by rw [hshift]; exact hgrow, ⟨h.mt, h.db, h.notDone, h.noErr, h.pre, h.roff, ?_, ?_, ?_, ?_, hd2, ?_⟩, hd1⟩
+      by rw [hshift]; exact hgrow, ⟨h.mt, h.db, h.nt, h.notDone, h.noErr, h.pre, h.roff, ?_, ?_, ?_, ?_, hd2, ?_⟩, hd1⟩
     · simp
     · simpa using hd3
     · left; simp [hwl]; omega
@@ -165,25 +166,25 @@ theorem makeRoom_spec {f M D s P w} (h : LI f M D s P w) (h0 : s.start = 0) (hb 
     · intro _; simp; omega
 
 theorem LI.setToken {f M D s P w} (h : LI f M D s P w) (t : Bytes) : LI f M D { s with token := t } P w :=
-  ⟨h.mt, h.db, h.notDone, h.noErr, h.pre, h.roff, h.le1, h.le2, h.buflen, h.data, h.room, h.bpos⟩
+  ⟨h.mt, h.db, h.nt, h.notDone, h.noErr, h.pre, h.roff, h.le1, h.le2, h.buflen, h.data, h.room, h.bpos⟩
 
-theorem scanLines_of_last {a b : Bytes} (hb : NL ∉ b) : scanLines (a ++ NL :: b) = (a.length, trim b) := by
+theorem scanLines_of_last {a b : Bytes} (hb : NL ∉ b) : scanLines false (a ++ NL :: b) = (a.length, dropCR b) := by
   unfold scanLines
   cases h : lastIdxNL (a ++ NL :: b) with
   | none => exact absurd (lastIdxNL_none.mp h) (by simp)
   | some i =>
     obtain ⟨a2, b2, he, hl, hb2⟩ := lastIdxNL_some h
     obtain ⟨rfl, rfl⟩ := lastNL_unique he hb hb2
-    simp only [← hl, drop_left, trim_NL_cons]
+    simp only [← hl, drop_left, lineToken_false, trimLine_NL_cons]
 
-theorem scanLines_noNL {w : Bytes} (h : NL ∉ w) : scanLines w = (0, []) := by
+theorem scanLines_noNL {w : Bytes} (h : NL ∉ w) : scanLines false w = (0, []) := by
   unfold scanLines; rw [lastIdxNL_none.mpr h]
 
-/-- No token can be cut from `w` yet: no '\n' at all, or only the very first byte is one and what follows trims
-to nothing (`advance = 0 ∧ token = nil`). -/
-def Unusable (w : Bytes) : Prop := NL ∉ w ∨ ∃ b, w = NL :: b ∧ NL ∉ b ∧ trim b = []
+/-- No token can be cut from `w` yet: no '\n' at all, or only the very first byte is one and what follows is
+empty or a single '\r' (`advance = 0 ∧ token = nil`). -/
+def Unusable (w : Bytes) : Prop := NL ∉ w ∨ ∃ b, w = NL :: b ∧ NL ∉ b ∧ dropCR b = []
 
-theorem scanLines_unusable {w : Bytes} (h : Unusable w) : scanLines w = (0, []) := by
+theorem scanLines_unusable {w : Bytes} (h : Unusable w) : scanLines false w = (0, []) := by
   rcases h with h | ⟨b, rfl, hb, ht⟩
   · exact scanLines_noNL h
   · have := scanLines_of_last (a := []) hb
@@ -191,19 +192,19 @@ theorem scanLines_unusable {w : Bytes} (h : Unusable w) : scanLines w = (0, []) 
 
 /-- Either a token can be cut at the last '\n', or not. -/
 theorem usable_or (w : Bytes) :
-    (∃ a b, w = a ++ NL :: b ∧ NL ∉ b ∧ (a ≠ [] ∨ trim b ≠ [])) ∨ Unusable w := by
+    (∃ a b, w = a ++ NL :: b ∧ NL ∉ b ∧ (a ≠ [] ∨ dropCR b ≠ [])) ∨ Unusable w := by
   cases h : lastIdxNL w with
   | none => exact Or.inr (Or.inl (lastIdxNL_none.mp h))
   | some i =>
     obtain ⟨a, b, he, _, hb⟩ := lastIdxNL_some h
-    by_cases hu : a ≠ [] ∨ trim b ≠ []
+    by_cases hu : a ≠ [] ∨ dropCR b ≠ []
     · exact Or.inl ⟨a, b, he, hb, hu⟩
     · have ha : a = [] := by
         by_cases ha : a = []
         · exact ha
         · exact absurd (Or.inl ha) hu
-      have ht : trim b = [] := by
-        by_cases ht : trim b = []
+      have ht : dropCR b = [] := by
+        by_cases ht : dropCR b = []
         · exact ht
         · exact absurd (Or.inr ht) hu
       exact Or.inr (Or.inr ⟨b, by rw [he, ha]; rfl, hb, ht⟩)
@@ -214,56 +215,56 @@ def Safe (M : Nat) (s : RS) (P w : Bytes) : Prop := P.length ≤ s.start ∨ Sho
 
 /-- One iteration when a token can be cut from the pending data. -/
 theorem scanLoop_ret {f : Bytes} {fuel : Nat} {s s1 : RS} {a b : Bytes}
-    (hs1 : fill f s = s1) (hnoerr : s1.err = none) (hst0 : s1.start = 0)
+    (hs1 : fill f s = s1) (hnt : s1.trimAll = false) (hnoerr : s1.err = none) (hst0 : s1.start = 0)
     (hdata : (s1.buf.drop s1.start).take (s1.stop - s1.start) = a ++ NL :: b) (hb : NL ∉ b)
-    (hu : a ≠ [] ∨ trim b ≠ []) :
-    scanLoop f (fuel + 1) s = ({ s1 with token := trim b, stop := a.length }, true) := by
-  have hc : (a.length > 0 || !(trim b).isEmpty) = true := by
+    (hu : a ≠ [] ∨ dropCR b ≠ []) :
+    scanLoop f (fuel + 1) s = ({ s1 with token := dropCR b, stop := a.length }, true) := by
+  have hc : (a.length > 0 || !(dropCR b).isEmpty) = true := by
     rcases hu with h | h
     · have : 0 < a.length := length_pos_iff.mpr h
       simp [this]
     · simp [h]
   rw [hst0] at hdata
-  simp only [scanLoop, hs1, hnoerr, Option.isSome_none, Bool.false_eq_true, if_false, hdata, scanLines_of_last hb, hc,
+  simp only [scanLoop, hs1, hnt, lineToken_false, hnoerr, Option.isSome_none, Bool.false_eq_true, if_false, hdata, scanLines_of_last hb, hc,
     if_true, hst0, Nat.zero_add]
 
 /-- One iteration when no token can be cut and the whole file has been read. -/
 theorem scanLoop_tail {f : Bytes} {fuel : Nat} {s s1 : RS} {w : Bytes}
-    (hs1 : fill f s = s1) (hnoerr : s1.err = none) (hst0 : s1.start = 0)
+    (hs1 : fill f s = s1) (hnt : s1.trimAll = false) (hnoerr : s1.err = none) (hst0 : s1.start = 0)
     (hdata : (s1.buf.drop s1.start).take (s1.stop - s1.start) = w) (hu : Unusable w) (hr : s1.rOffset = 0) :
     scanLoop f (fuel + 1) s =
-      if 0 < s1.stop then ({ s1 with token := trim w, done := true }, true)
+      if 0 < s1.stop then ({ s1 with token := trimLine w, done := true }, true)
       else ({ s1 with token := [], done := true }, false) := by
   rw [hst0] at hdata
-  simp only [scanLoop, hs1, hnoerr, Option.isSome_none, Bool.false_eq_true, if_false, hdata, scanLines_unusable hu,
+  simp only [scanLoop, hs1, hnt, lineToken_false, hnoerr, Option.isSome_none, Bool.false_eq_true, if_false, hdata, scanLines_unusable hu,
     Nat.lt_irrefl, gt_iff_lt, decide_false, isEmpty_nil, Bool.not_true, Bool.or_self, hr, beq_self_eq_true, if_true, hst0]
 
 /-- One iteration when no token can be cut and more of the file is left. -/
 theorem scanLoop_more {f : Bytes} {fuel : Nat} {s s1 s2 : RS} {w : Bytes}
-    (hs1 : fill f s = s1) (hnoerr : s1.err = none)
+    (hs1 : fill f s = s1) (hnt : s1.trimAll = false) (hnoerr : s1.err = none)
     (hdata : (s1.buf.drop s1.start).take (s1.stop - s1.start) = w) (hu : Unusable w) (hr : s1.rOffset ≠ 0)
     (hg : grow (shift { s1 with token := [] }) = some s2) :
     scanLoop f (fuel + 1) s = scanLoop f fuel s2 := by
   have hr' : (s1.rOffset == 0) = false := by simpa using hr
-  obtain ⟨mt, db, tok, buf, bs, st, sp, ro, er, dn⟩ := s1
-  simp only at hnoerr hdata hr' hg
-  subst hnoerr
+  obtain ⟨mt, db, ta, tok, buf, bs, st, sp, ro, er, dn⟩ := s1
+  simp only at hnt hnoerr hdata hr' hg
+  subst hnoerr; subst hnt
   simp only [scanLoop, hs1, Option.isSome_none, Bool.false_eq_true, if_false, hdata, scanLines_unusable hu,
     Nat.lt_irrefl, gt_iff_lt, decide_false, isEmpty_nil, Bool.not_true, Bool.or_self, hr', hg]
 
 /-- **The loop of `Scan`** from a state satisfying the invariant, in terms of the not yet tokenised part
 `g = P ++ w` of the file:
 * if `g` can be cut at its last '\n' into `a ++ '\n' :: b` (with `a ≠ []` or a non-empty token), `Scan` returns
-  `true` with token `trim b`, and the invariant holds again with `a` left;
-* otherwise, if `g ≠ []`, `Scan` returns `true` with token `trim g` and is done;
+  `true` with token `dropCR b`, and the invariant holds again with `a` left;
+* otherwise, if `g ≠ []`, `Scan` returns `true` with token `trimLine g` and is done;
 * if `g = []`, `Scan` returns `false` and is done. -/
 theorem scanLoop_spec {f : Bytes} {M D : Nat} : ∀ (fuel : Nat) (s : RS) (P w : Bytes),
     LI f M D s P w → Safe M s P w → P.length - s.start < fuel →
-    (∀ a b, P ++ w = a ++ NL :: b → NL ∉ b → (a ≠ [] ∨ trim b ≠ []) →
-      ∃ s' P' w', scanLoop f fuel s = (s', true) ∧ s'.token = trim b ∧ LI f M D s' P' w' ∧ s'.start = 0 ∧
+    (∀ a b, P ++ w = a ++ NL :: b → NL ∉ b → (a ≠ [] ∨ dropCR b ≠ []) →
+      ∃ s' P' w', scanLoop f fuel s = (s', true) ∧ s'.token = dropCR b ∧ LI f M D s' P' w' ∧ s'.start = 0 ∧
         P' ++ w' = a ∧ Safe M s' P' w') ∧
     (Unusable (P ++ w) → P ++ w ≠ [] →
-      ∃ s', scanLoop f fuel s = (s', true) ∧ s'.token = trim (P ++ w) ∧ s'.done = true ∧ s'.err = none) ∧
+      ∃ s', scanLoop f fuel s = (s', true) ∧ s'.token = trimLine (P ++ w) ∧ s'.done = true ∧ s'.err = none) ∧
     (P ++ w = [] → ∃ s', scanLoop f fuel s = (s', false) ∧ s'.done = true ∧ s'.err = none) := by
   intro fuel
   induction fuel with
@@ -278,6 +279,7 @@ theorem scanLoop_spec {f : Bytes} {M D : Nat} : ∀ (fuel : Nat) (s : RS) (P w :
     have hP1len : P1.length = P.length - s.start := by rw [← hP1, length_take]; omega
     have hdata := hli1.data
     have hnoerr := hli1.noErr
+    have hnt1 := hli1.nt
     have hw1len : w1.length = s1.stop := by rw [hli1.wlen, hst0]; simp
     have hsafe1 : P1 = [] ∨ ShortRuns M (P ++ w) := by
       rcases hsafe with h | h
@@ -286,10 +288,10 @@ theorem scanLoop_spec {f : Bytes} {M D : Nat} : ∀ (fuel : Nat) (s : RS) (P w :
     rw [← hg]
     rcases usable_or w1 with ⟨a', b', hw1e, hb', hu'⟩ | hun
     · -- a token is cut from the pending data
-      have hret := scanLoop_ret (fuel := fuel) hs1 hnoerr hst0 (by rw [hdata, hw1e]) hb' hu'
+      have hret := scanLoop_ret (fuel := fuel) hs1 hnt1 hnoerr hst0 (by rw [hdata, hw1e]) hb' hu'
       have hale : a'.length ≤ s1.stop := by rw [← hw1len, hw1e]; simp
-      have hlia : LI f M D { s1 with token := trim b', stop := a'.length } P1 a' := by
-        refine ⟨hli1.mt, hli1.db, hli1.notDone, hli1.noErr, hli1.pre, hli1.roff, ?_, ?_, Or.inl hbl, ?_, hli1.room, hli1.bpos⟩
+      have hlia : LI f M D { s1 with token := dropCR b', stop := a'.length } P1 a' := by
+        refine ⟨hli1.mt, hli1.db, hli1.nt, hli1.notDone, hli1.noErr, hli1.pre, hli1.roff, ?_, ?_, Or.inl hbl, ?_, hli1.room, hli1.bpos⟩
         · simp [hst0]
         · have := hli1.le2; simp only; omega
         · simp only
@@ -297,7 +299,7 @@ theorem scanLoop_spec {f : Bytes} {M D : Nat} : ∀ (fuel : Nat) (s : RS) (P w :
               ((s1.buf.drop s1.start).take (s1.stop - s1.start)).take (a'.length - s1.start) := by
             rw [take_take, Nat.min_eq_left (by omega)]
           rw [this, hdata, hw1e, hst0]; simp
-      have hsafea : Safe M { s1 with token := trim b', stop := a'.length } P1 a' := by
+      have hsafea : Safe M { s1 with token := dropCR b', stop := a'.length } P1 a' := by
         rcases hsafe1 with h | h
         · left; simp [h]
         · right; exact h.of_prefix (c := NL :: b') (by rw [← hg, hw1e]; simp)
@@ -320,7 +322,7 @@ theorem scanLoop_spec {f : Bytes} {M D : Nat} : ∀ (fuel : Nat) (s : RS) (P w :
     · by_cases hP1e : P1 = []
       · -- the whole file has been read
         have hr : s1.rOffset = 0 := by rw [hli1.roff, hP1e]; rfl
-        have htail := scanLoop_tail (fuel := fuel) hs1 hnoerr hst0 hdata hun hr
+        have htail := scanLoop_tail (fuel := fuel) hs1 hnt1 hnoerr hst0 hdata hun hr
         subst hP1e; simp only [nil_append]
         refine ⟨?_, ?_, ?_⟩
         · intro a b he hb hu
@@ -353,7 +355,7 @@ theorem scanLoop_spec {f : Bytes} {M D : Nat} : ∀ (fuel : Nat) (s : RS) (P w :
         obtain ⟨s2, hgrow, hli2, hst2⟩ := makeRoom_spec (hli1.setToken []) hst0 hbl hP1e hwlt
         have hro : s1.rOffset ≠ 0 := by
           rw [hli1.roff]; intro h; exact hP1e (eq_nil_of_length_eq_zero h)
-        have hmore := scanLoop_more (fuel := fuel) hs1 hnoerr hdata hun hro hgrow
+        have hmore := scanLoop_more (fuel := fuel) hs1 hnt1 hnoerr hdata hun hro hgrow
         rw [hmore]
         have hP1pos : 0 < P1.length := length_pos_iff.mpr hP1e
         exact ih s2 P1 w1 hli2 (Or.inr (by rw [hg]; exact hsr)) (by omega)
@@ -408,13 +410,13 @@ theorem collect_spec {f : Bytes} {M D : Nat} (fuel : Nat) (hfuel : f.length < fu
           exact ⟨n - 1, by omega⟩
         obtain ⟨m, rfl⟩ := hn1
         rw [collect_false (scan_done hdone) (by simpa using herr)]
-        have hrs : revSpec (P ++ w) = [trim (P ++ w)] := by
+        have hrs : revSpec (P ++ w) = [trimLine (P ++ w)] := by
           rcases hun with h | ⟨b, he, hb, _⟩
-          · rw [revSpec_noNL h, if_neg hne]
+          · rw [revSpec_noNL h, if_neg hne, trimLine_of_noNL h]
           · rw [he]
             have := revSpec_snoc (a := []) hb
             simp only [nil_append] at this
-            rw [this, revSpec_nil, trim_NL_cons]
+            rw [this, revSpec_nil, trimLine_NL_cons]
         rw [hrs]
 
 end ShpanVerif.Proofs.FileScan
